@@ -23,6 +23,15 @@ Which C++ file each definition mirrors (all under `libs/core/include/fcppt/`):
 * `Var.typeIndex holdsType getUnsafe`         : `variant/object_impl.hpp`, `holds_type.hpp`, `detail/get_unsafe_impl.hpp`
 * `Var.apply apply2 match_ toOptional compare eq ne lt` : `variant/apply.hpp match.hpp to_optional.hpp compare.hpp comparison.hpp`
 * `monadBindOpt`, `monadBindEither`           : `monad/bind.hpp` + `optional/monad.hpp`, `either/monad.hpp`
+* `Opt.toContainer copyValue deref maybeVoidMulti* assign fromPointer toPointer toException output nothing setUnsafe`
+                                              : `optional/to_container.hpp copy_value.hpp deref.hpp maybe_void_multi.hpp assign.hpp
+                                                from_pointer.hpp to_pointer.hpp to_exception.hpp output.hpp nothing_impl.hpp object_impl.hpp`
+* `Either.eq ne construct errorFromOptional makeFailure makeSuccess output sequenceError toException setSuccessUnsafe
+   setFailureUnsafe`                          : `either/comparison.hpp construct.hpp error_from_optional.hpp make_failure.hpp
+                                                make_success.hpp output.hpp sequence_error.hpp to_exception.hpp object_impl.hpp`
+* `Loop`, `foldBreak`                         : `loop.hpp`, `algorithm/fold_break.hpp` (+ `loop_break.hpp`)
+* `Var.apply3 toOptionalRef setUnsafe output dynamicCast` : `variant/apply.hpp to_optional_ref.hpp object_impl.hpp output.hpp dynamic_cast.hpp`
+* `returnOpt returnEither chainOpt* chainEither* doOpt* doEither*` : `monad/return.hpp chain.hpp do.hpp` (+ `detail/`)
 -/
 namespace Fcppt.C04
 
@@ -82,6 +91,21 @@ def mapM' (f : α → K σ β) : List α → K σ (List β)
     let y ← f x
     let ys ← mapM' f r
     pure (y :: ys)
+
+/-- `fcppt::loop` -/
+inductive Loop where
+  | break_ | continue_
+  deriving Repr, DecidableEq
+
+/-- `algorithm::fold_break(range, state, function)`: `loop_break` over the range; the body replaces the state by
+`function(element, state).second` and stops after the call that returned `loop::break_` -/
+def foldBreak (f : α → β → K σ (Loop × β)) : List α → β → K σ β
+  | [], state => pure state
+  | x :: r, state => do
+    let result ← f x state
+    match result.1 with
+    | .break_ => pure result.2
+    | .continue_ => foldBreak f r result.2
 
 /-! ## optional -/
 namespace Opt
@@ -249,6 +273,93 @@ def lt (ltv : α → α → Bool) (a b : Option α) : K σ Bool :=
     let y ← getUnsafe b
     pure (ltv x y)
   else pure (!hasValue a && hasValue b)
+
+/-! ### the rest of the public `optional` API -/
+
+/-- `optional::nothing` converted to an `object<T>` -/
+def nothing : Option α := none
+
+/-- `to_container<Container>(source)` = `maybe(source, Container{}, λx. container::make<Container>(x))` -/
+def toContainer (src : Option α) : K σ (List α) :=
+  maybe src (fun _ => pure []) (fun x => pure [x])
+
+/-- `copy_value(optional_reference)` = `map(opt, λref. ref.get())`; `get` reads the referenced object -/
+def copyValue {ρ : Type} (get : ρ → K σ α) (o : Option ρ) : K σ (Option α) :=
+  map o get
+
+/-- `deref(optional)` = `map(opt, λe. reference(*e))`; `star` is the element's `operator*`
+(a null pointer / past-the-end iterator inside the optional is the caller's fault: `star` faults) -/
+def deref {π ρ : Type} (star : π → K σ ρ) (o : Option π) : K σ (Option ρ) :=
+  map o star
+
+/-- `maybe_void_multi(transform, o1)` = `maybe_multi([]{}, transform, o1)` -/
+def maybeVoidMulti1 (t : α → K σ Unit) (o1 : Option α) : K σ Unit :=
+  maybeMulti1 (fun _ => pure ()) t o1
+def maybeVoidMulti2 (t : α → β → K σ Unit) (o1 : Option α) (o2 : Option β) : K σ Unit :=
+  maybeMulti2 (fun _ => pure ()) t o1 o2
+def maybeVoidMulti3 (t : α → β → γ → K σ Unit) (o1 : Option α) (o2 : Option β) (o3 : Option γ) : K σ Unit :=
+  maybeMulti3 (fun _ => pure ()) t o1 o2 o3
+def maybeVoidMultiN (t : List α → K σ Unit) (os : List (Option α)) : K σ Unit :=
+  maybeMultiN (fun _ => pure ()) t os
+
+/-- `assign(optional, arg)`: `optional = object(arg); return optional.get_unsafe();` — the new content of the
+variable and the object the returned reference designates -/
+def assign (_optional : Option α) (arg : α) : K σ (Option α × α) := do
+  let optional' := some arg
+  let r ← getUnsafe optional'
+  pure (optional', r)
+
+/-- writing through the reference `get_unsafe()` returns (non-const overload) -/
+def setUnsafe (o : Option α) (v : α) : K σ (Option α) := do
+  let _ ← getUnsafe o
+  pure (some v)
+
+end Opt
+
+/-- a raw pointer: null or the address of an object (`ρ` = the objects a reference can designate) -/
+inductive Ptr (ρ : Type) where
+  | null
+  | to (r : ρ)
+  deriving Repr, DecidableEq, Inhabited
+
+namespace Ptr
+variable {ρ : Type}
+def isNull : Ptr ρ → Bool
+  | null => true
+  | to _ => false
+/-- `*p` -/
+def star : Ptr ρ → K σ ρ
+  | to r => pure r
+  | null => K.fault .emptyDeref
+end Ptr
+
+namespace Opt
+variable {ρ : Type}
+
+/-- `from_pointer(p)` = `p != nullptr ? reference{make_ref(*p)} : reference{}` -/
+def fromPointer (p : Ptr ρ) : K σ (Option ρ) :=
+  if !p.isNull then do
+    let r ← p.star
+    pure (some r)
+  else pure none
+
+/-- `to_pointer(optional_reference)` = `maybe(opt, nullptr, λref. &ref.get())` -/
+def toPointer (o : Option ρ) : K σ (Ptr ρ) :=
+  maybe o (fun _ => pure .null) (fun r => pure (.to r))
+
+/-- `to_exception(optional, make_exception)`: the value, or `throw make_exception()` -/
+def toException (o : Option α) (mk : Unit → K σ ExcKind) : K σ α :=
+  if hasValue o then getUnsafe o
+  else do
+    let e ← mk ()
+    K.fault (.exception e)
+
+/-- `operator<<(stream, optional)`: `put` is `stream << stream.widen(c)`, `putv` the element's `<<` -/
+def output (put : Char → K σ Unit) (putv : α → K σ Unit) (o : Option α) : K σ Unit :=
+  maybe o (fun _ => put 'N') (fun v => do
+    put 'J'
+    put ' '
+    putv v)
 
 end Opt
 
@@ -455,6 +566,73 @@ def tryCall {ε : Type} (catches : ExcKind → Option ε) (f : Unit → K σ α)
         | none => K.fault flt
       | _ => K.fault flt)
 
+/-! ### the rest of the public `either` API -/
+
+/-- `operator==`: both successes and equal, or both failures and equal (`&&` / `?:` evaluate lazily) -/
+def eq (eqf : φ → φ → Bool) (eqs : α → α → Bool) (a b : Either φ α) : K σ Bool :=
+  if hasSuccess a && hasSuccess b then do
+    let x ← getSuccessUnsafe a
+    let y ← getSuccessUnsafe b
+    pure (eqs x y)
+  else if hasFailure a then
+    if hasFailure b then do
+      let x ← getFailureUnsafe a
+      let y ← getFailureUnsafe b
+      pure (eqf x y)
+    else pure false
+  else pure false
+
+/-- `operator!=` -/
+def ne (eqf : φ → φ → Bool) (eqs : α → α → Bool) (a b : Either φ α) : K σ Bool := do
+  let r ← eq eqf eqs a b
+  pure !r
+
+/-- `construct(value, success, failure)` -/
+def construct (value : Bool) (s : Unit → K σ α) (f : Unit → K σ φ) : K σ (Either φ α) :=
+  if value then do
+    let x ← s ()
+    pure (success x)
+  else do
+    let x ← f ()
+    pure (failure x)
+
+/-- `make_failure<Success>(f)`, `make_success<Failure>(s)` -/
+def makeFailure (f : φ) : Either φ α := failure f
+def makeSuccess (s : α) : Either φ α := success s
+
+/-- `error_from_optional(optional)`: `either::error<F>` = `object<F, no_error>`, `no_error` = `Unit` -/
+def errorFromOptional (o : Option φ) : K σ (Either φ Unit) :=
+  Opt.maybe o (fun _ => pure (success ())) (fun v => pure (failure v))
+
+/-- `operator<<(stream, either)` = `match(either, output, output)` -/
+def output (putf : φ → K σ Unit) (puts : α → K σ Unit) (e : Either φ α) : K σ Unit :=
+  match_ e putf puts
+
+/-- `sequence_error(sequence, function)` = `fold_break` with state `either_type{no_error{}}` -/
+def sequenceError (seq : List α) (f : α → K σ (Either φ Unit)) : K σ (Either φ Unit) :=
+  foldBreak (fun element (_ : Either φ Unit) => do
+      let r ← f element
+      match_ r
+        (fun error => pure (Loop.break_, failure error))
+        (fun _ => pure (Loop.continue_, success ())))
+    seq (success ())
+
+/-- `to_exception(either, make_exception)`: the success, or `throw make_exception(failure)` -/
+def toException (e : Either φ α) (mk : φ → K σ ExcKind) : K σ α :=
+  if hasSuccess e then getSuccessUnsafe e
+  else do
+    let f ← getFailureUnsafe e
+    let k ← mk f
+    K.fault (.exception k)
+
+/-- writing through the references the non-const `get_success_unsafe()` / `get_failure_unsafe()` return -/
+def setSuccessUnsafe (e : Either φ α) (v : α) : K σ (Either φ α) := do
+  let _ ← getSuccessUnsafe e
+  pure (success v)
+def setFailureUnsafe (e : Either φ α) (v : φ) : K σ (Either φ α) := do
+  let _ ← getFailureUnsafe e
+  pure (failure v)
+
 end Either
 
 /-! ## variant -/
@@ -483,6 +661,11 @@ def apply (f : (i : Fin n) → τ i → K σ β) (v : Var n τ) : K σ β := f v
 /-- `apply(function, v1, v2)` -/
 def apply2 {m : Nat} {υ : Fin m → Type} (f : (i : Fin n) → τ i → (j : Fin m) → υ j → K σ β)
     (v1 : Var n τ) (v2 : Var m υ) : K σ β := f v1.idx v1.val v2.idx v2.val
+
+/-- `apply(function, v1, v2, v3)` -/
+def apply3 {m k : Nat} {υ : Fin m → Type} {ω : Fin k → Type}
+    (f : (i : Fin n) → τ i → (j : Fin m) → υ j → (l : Fin k) → ω l → K σ β)
+    (v1 : Var n τ) (v2 : Var m υ) (v3 : Var k ω) : K σ β := f v1.idx v1.val v2.idx v2.val v3.idx v3.val
 
 /-- `match(v, f_0, …, f_{n-1})`: visit with the function at `index_of<types, decltype(arg)>` -/
 def match_ (v : Var n τ) (fs : (i : Fin n) → τ i → K σ β) : K σ β :=
@@ -513,13 +696,166 @@ def lt (ltv : (i : Fin n) → τ i → τ i → Bool) (l r : Var n τ) : Bool :=
   else if r.idx < l.idx then false
   else if h : l.idx = r.idx then ltv r.idx (h ▸ l.val) r.val else false
 
+/-- `to_optional_ref<T_j>(v)`: a reference to the held value (`make_ref(get_unsafe<T_j>(v))`) or nothing -/
+def toOptionalRef (j : Fin n) (v : Var n τ) : K σ (Option (τ j)) :=
+  if holdsType j v then do
+    let x ← getUnsafe j v
+    pure (some x)
+  else pure none
+
+/-- writing through the reference that `get_unsafe<T_j>()` / `to_optional_ref<T_j>` hand out -/
+def setUnsafe (j : Fin n) (v : Var n τ) (x : τ j) : K σ (Var n τ) := do
+  let _ ← getUnsafe j v
+  pure ⟨j, x⟩
+
+/-- `operator<<(stream, variant)` = `apply(λx. stream << x, v)` -/
+def output (putv : (i : Fin n) → τ i → K σ Unit) (v : Var n τ) : K σ Unit := apply putv v
+
 end Var
 
-/-! ## monad/bind.hpp -/
+/-- `variant::dynamic_cast_<Types, Cast>(base)`: `fold_break` over the type list with state `result`;
+`casts[i] ()` is `cast::apply<Cast, T_i>(base)` (an optional reference); the result holds the index of the
+alternative (`reference<T_i>`) and the reference -/
+def dynamicCastStep {ρ : Type} (ic : Nat × (Unit → K σ (Option ρ))) (result : Option (Nat × ρ)) :
+    K σ (Loop × Option (Nat × ρ)) :=
+  if Opt.hasValue result then pure (Loop.break_, result)
+  else do
+    let c ← ic.2 ()
+    let r ← Opt.map c (fun ref => pure (ic.1, ref))
+    pure (Loop.continue_, r)
+def dynamicCast {ρ : Type} (casts : List (Unit → K σ (Option ρ))) : K σ (Option (Nat × ρ)) :=
+  foldBreak dynamicCastStep ((List.range casts.length).zip casts) none
+
+/-! ## the valueless state (`is_invalid()`)
+
+A `std::variant` becomes valueless when an assignment that changes the alternative destroys the old value and the
+construction of the new one throws.  `none` is that state. -/
+abbrev VarV (n : Nat) (τ : Fin n → Type) := Option (Var n τ)
+
+namespace VarV
+variable {n : Nat} {τ : Fin n → Type}
+
+/-- `is_invalid()` = `type_index() == std::variant_npos` -/
+def isInvalid (v : VarV n τ) : Bool :=
+  match v with
+  | none => true
+  | some _ => false
+
+/-- `type_index()`; `none` = `std::variant_npos` -/
+def typeIndex (v : VarV n τ) : Option Nat := v.map Var.typeIndex
+
+/-- `holds_type<T_j>` = `std::holds_alternative`: false for every type when valueless -/
+def holdsType (j : Fin n) (v : VarV n τ) : Bool :=
+  match v with
+  | none => false
+  | some w => Var.holdsType j w
+
+/-- `to_optional<T_j>` / `to_optional_ref<T_j>`: guarded by `holds_type`, so nothing (and no `get_unsafe`) when valueless -/
+def toOptional (j : Fin n) (v : VarV n τ) : K σ (Option (τ j)) :=
+  if holdsType j v then
+    match v with
+    | some w => do
+      let x ← Var.getUnsafe j w
+      pure (some x)
+    | none => K.fault .emptyDeref
+  else pure none
+
+/-- `apply` / `match` / `type_info` / `operator<<`: `std::visit` throws `std::bad_variant_access` when valueless -/
+def apply (f : (i : Fin n) → τ i → K σ β) (v : VarV n τ) : K σ β :=
+  match v with
+  | some w => Var.apply f w
+  | none => K.fault (.exception (.other "std"))
+
+/-- `compare(left, right, cmp)` = `apply` on the right one, `to_optional` on the left one -/
+def compare (l r : VarV n τ) (cmp : (i : Fin n) → τ i → τ i → K σ Bool) : K σ Bool :=
+  apply (fun j rInner => do
+    let o ← toOptional j l
+    Opt.maybe o (fun _ => pure false) (fun lInner => cmp j lInner rInner)) r
+
+/-- `operator==` of `std::variant`: two valueless variants are equal -/
+def eq (eqv : (i : Fin n) → τ i → τ i → Bool) (l r : VarV n τ) : Bool :=
+  match l, r with
+  | none, none => true
+  | some a, some b => Var.eq eqv a b
+  | _, _ => false
+
+/-- `operator<` of `std::variant`: a valueless variant is smaller than every other one -/
+def lt (ltv : (i : Fin n) → τ i → τ i → Bool) (l r : VarV n τ) : Bool :=
+  match l, r with
+  | _, none => false
+  | none, some _ => true
+  | some a, some b => Var.lt ltv a b
+
+/-- copy assignment `dst = src`, where `ctorThrows` says whether copy-constructing the source's value throws
+(its copy *assignment* does not).  Same alternative: element assignment.  Otherwise the old value is destroyed first
+and the new one constructed in place: a throw leaves the target valueless.  Result: the target afterwards and whether
+the exception left the assignment. -/
+def assign (dst src : VarV n τ) (ctorThrows : Bool) : VarV n τ × Bool :=
+  match src with
+  | none => (none, false)
+  | some s =>
+    match dst with
+    | some d =>
+      if d.idx = s.idx then (some s, false)
+      else if ctorThrows then (none, true)
+      else (some s, false)
+    | none => if ctorThrows then (none, true) else (some s, false)
+
+end VarV
+
+/-! ## the implicitly defined special members (copy / move construction and assignment) and `std::swap` -/
+
+/-- `dst = src` / `T dst{src}`: the target takes the value of the source; the result is (target, source as an lvalue
+keeps it) -/
+def assignObj {τ : Type} (_dst src : τ) : τ × τ := (src, src)
+/-- `std::swap(a, b)` -/
+def swapObj {τ : Type} (a b : τ) : τ × τ := (b, a)
+
+/-! ## monad/bind.hpp, return.hpp, chain.hpp, do.hpp -/
 
 /-- `monad::bind(optional, f)` = `instance<optional>::bind` = `optional::bind` -/
 def monadBindOpt (o : Option α) (f : α → K σ (Option β)) : K σ (Option β) := Opt.bind o f
 /-- `monad::bind(either, f)` = `instance<either>::bind` = `either::bind` -/
 def monadBindEither (e : Either φ α) (f : α → K σ (Either φ β)) : K σ (Either φ β) := Either.bind e f
+
+/-- `monad::return_<optional<…>>(x)` = `optional::make(x)`; `monad::return_<either<F,…>>(x)` = `make_success<F>(x)` -/
+def returnOpt (x : α) : Option α := Opt.make x
+def returnEither (x : α) : Either φ α := Either.makeSuccess x
+
+/-- `monad::chain(v, l_1, …, l_n)` = `bind(… bind(bind(v, l_1), l_2) …, l_n)` (`detail::chain`), at arities 1, 2
+with different types and at any arity with one type -/
+def chainOpt1 (v : Option α) (l1 : α → K σ (Option β)) : K σ (Option β) := do
+  let r1 ← monadBindOpt v l1
+  pure r1
+def chainOpt2 (v : Option α) (l1 : α → K σ (Option β)) (l2 : β → K σ (Option γ)) : K σ (Option γ) := do
+  let r1 ← monadBindOpt v l1
+  let r2 ← monadBindOpt r1 l2
+  pure r2
+def chainOptN (v : Option α) : List (α → K σ (Option α)) → K σ (Option α)
+  | [] => pure v
+  | l :: ls => do
+    let r ← monadBindOpt v l
+    chainOptN r ls
+def chainEither2 (v : Either φ α) (l1 : α → K σ (Either φ β)) (l2 : β → K σ (Either φ γ)) : K σ (Either φ γ) := do
+  let r1 ← monadBindEither v l1
+  let r2 ← monadBindEither r1 l2
+  pure r2
+def chainEitherN (v : Either φ α) : List (α → K σ (Either φ α)) → K σ (Either φ α)
+  | [] => pure v
+  | l :: ls => do
+    let r ← monadBindEither v l
+    chainEitherN r ls
+
+/-- `monad::do_(v, l_1, l_2)` (`detail::do_`): every lambda is given all the values bound so far -/
+def doOpt2 (v : Option α) (l1 : α → K σ (Option β)) : K σ (Option β) :=
+  monadBindOpt v fun a => l1 a
+def doOpt3 (v : Option α) (l1 : α → K σ (Option β)) (l2 : α → β → K σ (Option γ)) : K σ (Option γ) :=
+  monadBindOpt v fun a => do
+    let m ← l1 a
+    monadBindOpt m fun b => l2 a b
+def doEither3 (v : Either φ α) (l1 : α → K σ (Either φ β)) (l2 : α → β → K σ (Either φ γ)) : K σ (Either φ γ) :=
+  monadBindEither v fun a => do
+    let m ← l1 a
+    monadBindEither m fun b => l2 a b
 
 end Fcppt.C04
